@@ -329,6 +329,9 @@ pub fn c03_letters() -> Vec<Letter> {
         Letter { kind: L_PUT, map: 0, handle: H_FIRST, key: 1, val: 0 },
         Letter { kind: L_DEL, map: 0, handle: H_FIRST, key: 0, val: 0 },
         Letter { kind: L_PUT, map: 1, handle: H_FIRST, key: 0, val: 0 },
+        Letter { kind: L_PUT, map: 2, handle: H_FIRST, key: 0, val: 0 },
+        Letter { kind: L_PUT, map: 3, handle: H_FIRST, key: 0, val: 0 },
+        Letter { kind: L_PUT, map: 4, handle: H_FIRST, key: 0, val: 0 },
     ];
     for k in [L_FLUSH, L_SYNC_DATA, L_SYNC_ALL] {
         v.push(Letter { kind: k, map: 0, handle: H_FIRST, key: 0, val: 0 });
@@ -346,10 +349,14 @@ pub fn c03(tier: &str, seed: u64) -> i32 {
     ctx.pool = Pool::new(ctx.pool.size(), shim_env(), vec![]);
     let mut m0 = std_map(KtId::Bytes, 64, 2, 9, seed, "m");
     m0.params.val = BufP::Auto;
-    let m1 = std_map(KtId::U64, 8, 1, 8, seed, "other");
+    // one more map of every other key type: a database-level sync must reach every open map of every type
+    let m1 = std_map(KtId::U64, 8, 1, 8, seed, "other-u64");
+    let m2 = std_map(KtId::Str, 8, 1, 6, seed, "other-string");
+    let m3 = std_map(KtId::I64, 8, 1, 8, seed, "other-i64");
+    let m4 = std_map(KtId::Vu64, 8, 1, 8, seed, "other-vu64");
     let cfg = BCfg {
         prop: "C03".into(),
-        maps: vec![m0, m1],
+        maps: vec![m0, m1, m2, m3, m4],
         val_lens: vec![6, 300_000],
         letters: c03_letters(),
         depth: if thorough { 5 } else { 4 },
@@ -372,7 +379,7 @@ pub fn c03(tier: &str, seed: u64) -> i32 {
         ("complete", J::Bool(st.complete)),
         ("wall_s", J::Num(t)),
     ]));
-    for pick in [[0u8, 5, 1, 7], [4, 0, 11, 3], [1, 2, 9, 6]] {
+    for pick in [[0u8, 8, 1, 10], [4, 0, 14, 3], [7, 2, 13, 9]] {
         ctx.run.sample(J::Arr(pick.iter().map(|li| J::s(&cfg.label(&cfg.letters[*li as usize]))).collect()));
     }
     // the writer is killed at the crash point and another process examines what is left
@@ -386,7 +393,7 @@ pub fn c03(tier: &str, seed: u64) -> i32 {
     let nt = ctx.run.get("crash_points_with_data") + ctx.run.get("kill_runs_with_data");
     ctx.run.set("evaluations", J::Int(evals));
     ctx.run.set("distinct_nontrivial", J::Int(nt));
-    ctx.run.set("rule", J::s("every call sequence up to the depth over {put small/300000-byte values on 2 keys, delete, put on a second map of another key type, flush/sync_data/sync_all through the handle and its clone, db.sync_data/db.sync_all}; every durability call that returns Ok is a crash point: (1) the directory is copied while all handles are alive, the copy must decode (independent decoder) and open (real code) to exactly the model of the maps the call covers; (2) for sync_*: the system-call log of the LD_PRELOAD shim must show an fsync/fdatasync of each covered file after its last write; (3) the writer process is SIGKILLed at the crash point and a different process opens what is left. non-trivial = crash points at which at least one covered map holds data"));
+    ctx.run.set("rule", J::s("every call sequence up to the depth over {put small/300000-byte values on 2 keys, delete, put on four further maps (one of every other key type) in the same database, flush/sync_data/sync_all through the handle and its clone, db.sync_data/db.sync_all}; every durability call that returns Ok is a crash point: (1) the directory is copied while all handles are alive, the copy must decode (independent decoder) and open (real code) to exactly the model of the maps the call covers; (2) for sync_*: the system-call log of the LD_PRELOAD shim must show an fsync/fdatasync of each covered file after its last write; (3) the writer process is SIGKILLed at the crash point and a different process opens what is left. non-trivial = crash points at which at least one covered map holds data"));
     ctx.run.set("runs", J::Arr(ctx.runs.clone()));
     ctx.run.assumptions.push("process death only: no power loss / block reordering (the property speaks of the directory at that moment and of a killed process)".into());
     ctx.run.assumptions.push("write/pwrite/ftruncate/fsync/fdatasync reach the kernel through libc's PLT (checked: the shim must be present and an unfaulted flush must log a write)".into());
@@ -732,7 +739,7 @@ fn c16_run(bw: &mut BWorker, payload: &[u8], io: &mut WorkerIo) -> Vec<u8> {
             }
         }
         out.sequences += 1;
-        let what = format!("write #{k1} of {dname} refused ({})", if mode == 0 { "ENOSPC" } else { "short write, then ENOSPC" });
+        let what = format!("write #{k1} of {dname} refused ({})", match mode { 0 => "ENOSPC, and every later write", 1 => "short write, then ENOSPC", _ => "file-size limit at that write's offset: every write ending beyond it is refused" });
         shim.arm(k1, mode);
         let r = st.exec(&cfg, &dl);
         let refused = shim.refused();
@@ -819,7 +826,7 @@ fn c16_run(bw: &mut BWorker, payload: &[u8], io: &mut WorkerIo) -> Vec<u8> {
         st.drop_all();
         Ok(second_fired)
     };
-    let modes: Vec<i64> = if only_mode == 255 { vec![0, 1] } else { vec![only_mode as i64] };
+    let modes: Vec<i64> = if only_mode == 255 { vec![0, 1, 2] } else { vec![only_mode as i64] };
     let ks: Vec<i64> = if only_k == u64::MAX { (1..=w).collect() } else { vec![only_k as i64] };
     'outer: for k1 in ks {
         for mode in &modes {
@@ -873,12 +880,17 @@ pub fn c16(tier: &str, seed: u64) -> i32 {
         Letter { kind: L_DEL, map: 0, handle: H_FIRST, key: 0, val: 0 },
         Letter { kind: L_DEL, map: 0, handle: H_FIRST, key: 1, val: 0 },
     ];
+    let mut updates = updates;
+    // a second, small map of the key type the database syncs last: a database-level sync must report
+    // the failure of an earlier map even if the last one succeeds
+    updates.push(Letter { kind: L_PUT, map: 1, handle: H_FIRST, key: 0, val: 0 });
     let nu = updates.len();
     let mut letters = updates;
     for k in [L_FLUSH, L_SYNC_DATA, L_SYNC_ALL, L_DB_SYNC_ALL, L_DB_SYNC_DATA] {
         letters.push(Letter { kind: k, map: 0, handle: H_FIRST, key: 0, val: 0 });
     }
-    let cfg = BCfg { prop: "C16".into(), maps: vec![m0], val_lens: vec![6, 300_000], letters, depth: 4, flags: 0, seed, reopen: vec![], other_params: Params::defaults() };
+    let m1 = std_map(KtId::Vu64, 8, 1, 8, seed, "zz-last");
+    let cfg = BCfg { prop: "C16".into(), maps: vec![m0, m1], val_lens: vec![6, 300_000], letters, depth: 4, flags: 0, seed, reopen: vec![], other_params: Params::defaults() };
     ctx.pool.reinit(vec![{
         let mut b = Buf::new();
         b.u8(JOB_B_CONFIG).bytes(&cfg.enc());
@@ -970,7 +982,7 @@ pub fn c16(tier: &str, seed: u64) -> i32 {
     ctx.run.set("evaluations", J::Int(evals));
     ctx.run.set("distinct_nontrivial", J::Int(evals));
     ctx.run.set("histories", J::Int(hdone as i64));
-    ctx.run.set("rule", J::s("deviation-bounded fault enumeration at the system-call boundary (LD_PRELOAD shim): for every update history (all sequences of 1..n updates over put small/300000-byte values on 2 keys and delete, 65536-bucket table so that all three files have dirty chunks) followed by each of flush/sync_data/sync_all/db.sync_all/db.sync_data: run once unfaulted and count the W write calls of the durability call; then for every k in 1..W and both refusal modes (ENOSPC; short write then ENOSPC) run again with the k-th write refused and all later ones too (1 deviation), in the thorough tier additionally every refused retry (2 deviations). oracle: the call returns Err; while refusing, reads answer the model's value or Err, never a wrong Ok or a panic; after lifting, before any flush, every get/len/iteration equals the model; the next flush returns Ok and a copy of the directory decodes and opens to the model. every case is distinct (history, call, k, mode) and non-trivial (a write was really refused; runs where the injector did not fire are machinery errors)"));
+    ctx.run.set("rule", J::s("deviation-bounded fault enumeration at the system-call boundary (LD_PRELOAD shim): for every update history (all sequences of 1..n updates over put small/300000-byte values on 2 keys, delete, and a put on a second small map of the key type the database syncs last; 65536-bucket table so that all three files have dirty chunks) followed by each of flush/sync_data/sync_all/db.sync_all/db.sync_data: run once unfaulted and count the W write calls of the durability call; then for every k in 1..W and three refusal modes (ENOSPC from the k-th write on; short write then ENOSPC; a file-size limit at the k-th write's offset, i.e. later writes to smaller offsets of other files still succeed, as under RLIMIT_FSIZE) run again (1 deviation), in the thorough tier additionally every refused retry (2 deviations). oracle: the call returns Err; while refusing, reads answer the model's value or Err, never a wrong Ok or a panic; after lifting, before any flush, every get/len/iteration equals the model; the next flush returns Ok and a copy of the directory decodes and opens to the model. every case is distinct (history, call, k, mode) and non-trivial (a write was really refused; runs where the injector did not fire are machinery errors)"));
     ctx.run.exhaustive = complete;
     ctx.run.assumptions.push("only write/pwrite refusals are injected (the property's wording); failing fsync/ftruncate is not explored".into());
     if evals == 0 && ctx.run.violations.is_empty() {
